@@ -27,6 +27,7 @@ RULE = ("lock-step differential: every operation of a history (awaited call, fai
         "distinct = (configuration, history)")
 ASSUMPTIONS = ["functools.lru_cache (C implementation of the running 3.12 interpreter) is the reference",
                "cache_discard has no stdlib twin: reference is the cross-validated model"]
+EXHAUSTIVE_SUBSPACES = 'all histories of length <= 4 (thorough: 5) over 7 operations for maxsize 1 and 2'
 EXHAUSTIVE = {"quick": False, "thorough": False}
 N_RANDOM = {"quick": 60000, "thorough": 3000000}
 
